@@ -225,6 +225,19 @@ def more_definitions():
             want = np.asarray((K.sma if mt == 0 else K.wma)(close, p), dtype=float)
             if not indic.close_enough(got[p - 1:], want[p - 1:], 1e-9):
                 return f'ma(matype={mt}, period={p}) on {n} candles: {got[p - 1:]} but the window definition gives {want[p - 1:]}'
+    # Money Flow Index on series with exact ties: a candle whose typical price is unchanged counts for neither flow
+    for kind in ('random', 'ties'):
+        c = indic.candles(120, 3, kind)
+        tp = (c[:, 3] + c[:, 4] + c[:, 2]) / 3.0
+        raw = tp * c[:, 5]
+        for p in (5, 14):
+            got = np.asarray(ta.mfi(c, period=p, sequential=True), dtype=float)
+            for j in range(p, len(tp)):
+                pos = sum(raw[k] for k in range(j - p + 1, j + 1) if k >= 1 and tp[k] > tp[k - 1])
+                neg = sum(raw[k] for k in range(j - p + 1, j + 1) if k >= 1 and tp[k] < tp[k - 1])
+                want = 100.0 if neg == 0 else 100 - 100 / (1 + pos / neg)
+                if abs(got[j] - want) > 1e-6:
+                    return f'mfi(period={p})[{j}] = {got[j]} on a {kind} series but the textbook definition gives {want}'
     # standard deviation: population std of the trailing window (two-pass), also at a huge price level with small dispersion
     for level in (0.0, 1e9):
         c = indic.candles(80, 7, 'random')
